@@ -98,11 +98,50 @@ def showOpt (v : Option (List Nat)) : String :=
 
 def optTl (n : Nat) : Option Nat := if n = 0 then none else some n
 
+/-- the caller-supplied statistics of `write_batch_with_statistics` as the harness computes them
+(`Iterator::min_by` / `max_by` over the non-NaN values under the column order): the FIRST
+minimal and the LAST maximal element -/
+def providedMinMax (ops : KindOps) (batch : List (List Nat)) : Option (List Nat × List Nat) :=
+  match batch.filter (fun v => !(ops.nan v)) with
+  | [] => none
+  | f :: rest =>
+    some (rest.foldl (fun m v => if ops.specLe m v then m else v) f,
+          rest.foldl (fun m v => if ops.specLe m v then v else m) f)
+
+/-- state of the column writer while the batches are written: chunk `(min,max)`, the mini-batches
+of the current page (newest first), its buffered row count, the finished pages (newest first) -/
+structure WState where
+  col : MinMax (List Nat)
+  cur : List (List (List Nat))
+  n : Nat
+  pages : List (List (List (List Nat)))
+
+/-- `write_batch_internal` for one batch: optional caller statistics go into the chunk metrics
+first, then the mini-batches; a page is cut (and folded into the chunk metrics) as soon as
+`data_page_row_count_limit` rows are buffered -/
+def writeBatch (ops : KindOps) (withStats : Bool) (wbs rowlimit : Nat) (st : WState) (batch : List (List Nat)) : WState :=
+  let st := if withStats then
+      match providedMinMax ops batch with
+      | some (mn, mx) => { st with col := ⟨updateMin ops.gt ops.nan mn st.col.min, updateMax ops.gt ops.nan mx st.col.max⟩ }
+      | none => st
+    else st
+  (splitMini wbs (batch.length + 1) batch).foldl (fun st mb =>
+    let n' := st.n + mb.length
+    if n' ≥ rowlimit then
+      let page := (mb :: st.cur).reverse
+      { col := addPage ops.gt ops.nan st.col (pageStats ops.gt ops.nan page), cur := [], n := 0, pages := page :: st.pages }
+    else { st with cur := mb :: st.cur, n := n' }) st
+
 /-- answer of a `stats` case computed with the model, plus the verdict of the specification -/
-def statsAnswer (ops : KindOps) (stl cil wbs rowlimit : Nat) (batches : List (List (List Nat))) : String :=
-  let minis := (batches.map (fun b => splitMini wbs (b.length + 1) b)).flatten
-  let pages := layoutPages rowlimit minis [] 0
-  let chunk := chunkStats ops.gt ops.nan pages
+def statsAnswer (ops : KindOps) (withStats : Bool) (stl cil wbs rowlimit : Nat) (batches : List (List (List Nat))) : String :=
+  let st := batches.foldl (writeBatch ops withStats wbs rowlimit) ⟨MinMax.empty, [], 0, []⟩
+  -- `close`: the buffered rest becomes the last page
+  let st := if st.n > 0 then
+      let page := st.cur.reverse
+      { st with col := addPage ops.gt ops.nan st.col (pageStats ops.gt ops.nan page), pages := page :: st.pages }
+    else st
+  let pages := st.pages.reverse
+  let chunk := st.col
   let pageMM := pages.map (pageStats ops.gt ops.nan)
   -- chunk statistics → truncate_statistics
   let (cmin, cminExact, cmax, cmaxExact) :=
@@ -167,10 +206,11 @@ def nextPow2 (n : Nat) : Nat := Id.run do
 
 def handle (toks : List String) : String :=
   match toks with
-  | ["stats", kind, stl, cil, wbs, rowlimit, _flags, batches] =>
-    match kindOps kind, stl.toNat?, cil.toNat?, wbs.toNat?, rowlimit.toNat?, parseBatches batches with
-    | some ops, some stl, some cil, some wbs, some rowlimit, some bs => statsAnswer ops stl cil wbs rowlimit bs
-    | _, _, _, _, _, _ => "bad-op"
+  | ["stats", kind, stl, cil, wbs, rowlimit, flags, batches] =>
+    match kindOps kind, stl.toNat?, cil.toNat?, wbs.toNat?, rowlimit.toNat?, flags.toNat?, parseBatches batches with
+    | some ops, some stl, some cil, some wbs, some rowlimit, some flags, some bs =>
+      statsAnswer ops (flags / 32 % 2 == 1) stl cil wbs rowlimit bs
+    | _, _, _, _, _, _, _ => "bad-op"
   | ["nested", _rowlimit, _wbs, _flags, rows] =>
     -- specification only: number of rows and of non-null leaf values
     let rs := if rows = "-" then [] else rows.splitOn ";"
